@@ -3,14 +3,13 @@ CONSTANTS
   Ls <- LsS
   Bszs <- BszAll
   D = 2
-  Caps <- CapsC
+  Caps <- CapsS
   B0s <- B0S
   Modes <- ModesAll
   MaxSweeps = 3
   MinExtra = 1
   Ranks = "max"
-  Mutant = "none"
-  Emit = TRUE
-INVARIANT NoStaleEnv
-INVARIANT SweepOrder
+  Mutant = "stale_prev"
+  Emit = FALSE
+INVARIANT CanonAtUpdate
 CHECK_DEADLOCK FALSE
